@@ -4,6 +4,7 @@ From Coq Require Import List NArith ZArith Bool Arith Lia String.
 From RareV Require Import Base.Hex Base.Res Base.Num Model.Tmpl Model.Funcs Model.Eff Model.Optimize Model.FuncFile
                           Proofs.EffProof Proofs.OptimizeProof Proofs.FuncFileInline.
 Import ListNotations.
+Local Notation concat := List.concat.
 
 Definition env_ntm (c0 : Z) (E : env) : Prop :=
   forall f h, lookup E f = Some (FHelper h) -> forall v, ntm (h_body h c0 v).
@@ -44,6 +45,43 @@ Proof.
   destruct G as [G _]. apply eval_opt_sound; auto.
 Qed.
 
+(* a compiled template depends on the table only through the names it calls *)
+Fixpoint names (p : piece) : list bytes :=
+  match p with
+  | PCall f xs => f :: concat (map (fun a => concat (map names a)) xs)
+  | _ => []
+  end.
+Definition names_tmpl (t : tmpl) : list bytes := concat (map names t).
+
+Lemma piece_stage_ext o c0 E E' : forall p,
+  (forall g, In g (names p) -> lookup E g = lookup E' g) -> piece_stage o c0 E p = piece_stage o c0 E' p.
+Proof.
+  apply (piece_ind2 (fun p => (forall g, In g (names p) -> lookup E g = lookup E' g) ->
+                              piece_stage o c0 E p = piece_stage o c0 E' p)); intros; try reflexivity.
+  rewrite !piece_stage_call. rewrite <- (H0 f) by (simpl; auto).
+  assert (Hargs : map (arg_stage o c0 E) args = map (arg_stage o c0 E') args).
+  { assert (Hn : forall g, In g (concat (map (fun a => concat (map names a)) args)) -> lookup E g = lookup E' g)
+      by (intros g Hg; apply H0; simpl; auto).
+    clear H0. induction H as [|a r Ha _ IH]; simpl; auto.
+    rewrite IH by (intros g Hg; apply Hn; simpl; apply in_or_app; auto).
+    f_equal. unfold arg_stage. f_equal. f_equal.
+    assert (Hna : forall g, In g (concat (map names a)) -> lookup E g = lookup E' g)
+      by (intros g Hg; apply Hn; simpl; apply in_or_app; auto).
+    clear Hn IH. induction Ha as [|q t Hq _ IHt]; simpl; auto.
+    rewrite Hq by (intros g Hg; apply Hna; simpl; apply in_or_app; auto).
+    rewrite IHt by (intros g Hg; apply Hna; simpl; apply in_or_app; auto). reflexivity. }
+  rewrite Hargs. reflexivity.
+Qed.
+
+Lemma eval_tmpl_ext o c0 E E' t :
+  (forall g, In g (names_tmpl t) -> lookup E g = lookup E' g) -> eval_tmpl o c0 E t = eval_tmpl o c0 E' t.
+Proof.
+  intros Hn. unfold eval_tmpl, compiled. f_equal. f_equal.
+  induction t as [|q t IH]; simpl; auto.
+  rewrite (piece_stage_ext o c0 E E' q) by (intros g Hg; apply Hn; unfold names_tmpl; simpl; apply in_or_app; auto).
+  rewrite IH by (intros g Hg; apply Hn; unfold names_tmpl; simpl; apply in_or_app; auto). reflexivity.
+Qed.
+
 (* the hypotheses of the inlining theorem are satisfiable: a later definition calling an earlier
    one, a key passing through and a binder shadowing {0} *)
 Local Open Scope string_scope.
@@ -69,7 +107,9 @@ Example call_inline_example o :
       (eval_tmpl o 1000 env2 (subst_tmpl env2 ex_args b_quad)).
 Proof.
   destruct env2_good as [G N].
-  assert (Hb : eval_tmpl true 1000 env1 b_quad = eval_tmpl true 1000 env2 b_quad) by (vm_compute; reflexivity).
+  assert (Hb : eval_tmpl true 1000 env1 b_quad = eval_tmpl true 1000 env2 b_quad).
+  { apply eval_tmpl_ext. unfold names_tmpl. simpl. intros g Hg.
+    repeat (destruct Hg as [<-|Hg]; [reflexivity|]). contradiction. }
   eapply (call_inline 1000 env2 G N ex_args o (of_str "quad") _ b_quad); [reflexivity| |].
   - rewrite <- Hb. apply meq_refl.
   - vm_compute. repeat split; intros; try discriminate.
